@@ -333,6 +333,32 @@ fn main() {
     );
     run.assumptions.push("ChaCha8Rng::seed_from_u64(seed) followed by random::<f64>() < p is the decision procedure of corrupt_whitespace (public construction); not trusted blindly: a unit whose decision vectors do not reach every clean re-spacing is reported as a machinery error".into());
 
+    // long texts: character counts around the powers of two a size threshold would sit at. The decision
+    // vectors of such texts cannot be enumerated; every clause is an invariant of any outcome, so the
+    // long family uses the probability pairs and seeds of the "other probabilities" part
+    {
+        let lens = tu_verif::enumerate::threshold_lengths(run.pick(8, 10));
+        run.bounds.insert("long_phase".into(), json!(format!("character counts {lens:?} x 3 clean repeated patterns x use_graphemes x (p = 1/2, 1/2 and the {} other probability pairs) x {EXTRA_SEEDS} seeds", EXTRA_PROBS.len())));
+        for (k, n) in lens.iter().enumerate() {
+            if !run.unit((all.len() + k) as u64) {
+                continue;
+            }
+            for pat in [&["a"][..], &["a", "ä", " "][..], &["e\u{301}", "a", "a", " ", "ä"][..]] {
+                let text = tu_verif::enumerate::repeat_symbols(pat, *n).trim().to_string();
+                for g in [false, true] {
+                    if !refs::is_clean(&text, g) {
+                        continue;
+                    }
+                    for seed in 0..EXTRA_SEEDS {
+                        check(&mut run, &sub, &half[g as usize], &text, g, 0.5, 0.5, seed, None);
+                        for (j, (pi, pd)) in EXTRA_PROBS.iter().enumerate() {
+                            check(&mut run, &sub, &extra[j][g as usize], &text, g, *pi, *pd, seed, None);
+                        }
+                    }
+                }
+            }
+        }
+    }
     for (idx, u) in all.iter().enumerate() {
         if !run.unit(idx as u64) {
             continue;
